@@ -2,6 +2,7 @@ import Cpl.Spec.Torus
 import Cpl.Model.Rules
 import Cpl.Properties.C04
 import Cpl.Lemmas.Life
+import Cpl.Lemmas.LifeGlider
 
 /-!
 # C11 — Game of Life rule is Conway's B3/S23
@@ -10,8 +11,10 @@ import Cpl.Lemmas.Life
 cell has two or three, for every binary 3×3 neighbourhood, and `evolve2d` with it (Moore, `r = 1`, every
 memoize mode) equals the Life update of the torus. Hence still lifes stay fixed, the blinker has period
 two and a glider reappears shifted by one cell diagonally after four steps, wherever it is placed and
-across the periodic boundary (the concrete patterns are checked on all tori `5..10 × 5..10`; the
-translation theorem `lifeStep_shift` carries each of them to every placement).
+across the periodic boundary. The glider is proved on every torus of at least 5 × 5 cells
+(`glider_period`, `glider_anywhere`: locality of four Life steps + kernel evaluation of the 32 × 32
+possible 9×9 blocks); block, blinker and beehive are checked on all tori `5..10 × 5..10`; the translation
+theorem `lifeStep_shift` carries each pattern to every placement.
 -/
 
 namespace Cpl.C11
@@ -114,6 +117,7 @@ def Binary (g : Grid Int) : Prop := ∀ row ∈ g, ∀ x ∈ row, x = 0 ∨ x = 
 def golRule2 (d : Int := 0) : Rule2 Unit Int :=
   fun u n _ _ => ((golRule (n.map (·.map (·.getD 0)))).getD d, u)
 
+/-- The step written with the helper library's cell update (same formula). -/
 theorem lifeStep_eq (R C : Nat) (g : Grid Int) :
     lifeStep R C g = (List.range R).map fun i => (List.range C).map fun j => Life.lifeCell R C g i j := rfl
 
@@ -121,6 +125,7 @@ theorem lifeStep_eq (R C : Nat) (g : Grid Int) :
 theorem lifeStep_rect (R C : Nat) (g : Grid Int) : Rect (lifeStep R C g) R C :=
   Life.tabulate_rect R C _
 
+/-- See `lifeStep_rect`. -/
 theorem lifeStep_binary (R C : Nat) (g : Grid Int) : Binary (lifeStep R C g) :=
   Life.tabulate_binary R C _ fun _ _ => Life.b3s23_binary _ _
 
@@ -140,6 +145,7 @@ theorem pureStep2_gol_eq_life (d : Int) (R C : Nat) (g : Grid Int) (hg : Rect g 
     pureStep2 (fun n => (golRule (n.map (·.map (·.getD 0)))).getD d) R C 1 false g = lifeStep R C g :=
   Life.pureStep2_gol d g R C hg hb
 
+/-- … and so are `k` steps. -/
 theorem pureRun2_gol_eq_life (d : Int) (R C : Nat) :
     ∀ (k : Nat) (g : Grid Int), Rect g R C → Binary g →
       pureRun2 (fun n => (golRule (n.map (·.map (·.getD 0)))).getD d) R C 1 false k g = lifeRun R C k g
@@ -196,6 +202,7 @@ theorem lifeStep_shift (R C dx dy : Nat) (g : Grid Int) :
     lifeStep R C (shift R C dx dy g) = shift R C dx dy (lifeStep R C g) := by
   exact Life.lifeGrid_shift R C dx dy g
 
+/-- The same for `k` steps. -/
 theorem lifeIter_shift (R C dx dy : Nat) :
     ∀ (k : Nat) (g : Grid Int), lifeIter R C k (shift R C dx dy g) = shift R C dx dy (lifeIter R C k g)
   | 0, _ => rfl
@@ -232,19 +239,21 @@ theorem still_life_run (R C : Nat) (g : Grid Int) (h : lifeStep R C g = g) :
     simp only [lifeRun, List.replicate_succ]
     rw [h, still_life_run R C g h k]
 
-/-! ## Patterns (kernel evaluation on all tori `5..10 × 5..10`) -/
+/-! ## Patterns (glider: every torus ≥ 5 × 5; the others: kernel evaluation on all tori `5..10 × 5..10`) -/
 
 /-- The `R × C` grid whose live cells are `cells`. -/
 def place (R C : Nat) (cells : List (Nat × Nat)) : Grid Int :=
   (List.range R).map fun i => (List.range C).map fun j => if (i, j) ∈ cells then 1 else 0
 
+/-- Live cells of the four patterns, with the pattern's bounding box at the origin. -/
 def glider : List (Nat × Nat) := [(0, 1), (1, 2), (2, 0), (2, 1), (2, 2)]
 def blinker : List (Nat × Nat) := [(1, 0), (1, 1), (1, 2)]
 def block : List (Nat × Nat) := [(0, 0), (0, 1), (1, 0), (1, 1)]
 def beehive : List (Nat × Nat) := [(0, 1), (0, 2), (1, 0), (1, 3), (2, 1), (2, 2)]
 
-/-- **Glider** (checked sizes only: every torus `R × C` with `5 ≤ R, C ≤ 10`, 36 shapes; larger tori are
-    not covered by this theorem): after four steps the glider placed at the origin reappears moved by one
+/-- **Glider, direct evaluation** (checked sizes only: every torus `R × C` with `5 ≤ R, C ≤ 10`, 36 shapes;
+    larger tori are not covered by this theorem — see `glider_period` for all sizes): the four Life steps
+    of the whole torus are evaluated by the kernel; the glider placed at the origin reappears moved by one
     cell down and one cell right. -/
 theorem glider_period_partial : ∀ R ∈ List.range' 5 6, ∀ C ∈ List.range' 5 6,
     lifeIter R C 4 (place R C glider) = shift R C 1 1 (place R C glider) := by
@@ -255,13 +264,20 @@ theorem glider_not_earlier_partial : ∀ R ∈ List.range' 5 6, ∀ C ∈ List.r
     ∀ k ∈ [1, 2, 3], lifeIter R C k (place R C glider) ≠ shift R C 1 1 (place R C glider) := by
   decide +kernel
 
-/-- **Glider anywhere** (same 36 torus sizes): placed at any offset `(dx, dy)` — in particular straddling
-    the periodic boundary — it reappears one cell further down-right after four steps. -/
-theorem glider_anywhere_partial (R C : Nat) (hR : R ∈ List.range' 5 6) (hC : C ∈ List.range' 5 6)
-    (dx dy : Nat) :
+/-- **Glider on every torus** with at least 5 rows and 5 columns (square or not, arbitrarily large):
+    after four steps the glider placed at the origin reappears moved by one cell down and one cell right.
+    (Four steps at a cell depend on the 9×9 block around it; whatever the torus size that block is one of
+    32 × 32 possibilities, each evaluated by the kernel.) -/
+theorem glider_period (R C : Nat) (hR : 5 ≤ R) (hC : 5 ≤ C) :
+    lifeIter R C 4 (place R C glider) = shift R C 1 1 (place R C glider) :=
+  Life.glider4 R C hR hC
+
+/-- **Glider anywhere on every torus**: placed at any offset `(dx, dy)` — in particular straddling the
+    periodic boundary — it reappears one cell further down-right after four steps. -/
+theorem glider_anywhere (R C : Nat) (hR : 5 ≤ R) (hC : 5 ≤ C) (dx dy : Nat) :
     lifeIter R C 4 (shift R C dx dy (place R C glider))
       = shift R C 1 1 (shift R C dx dy (place R C glider)) :=
-  spaceship_anywhere R C dx dy 4 1 1 _ (glider_period_partial R hR C hC)
+  spaceship_anywhere R C dx dy 4 1 1 _ (glider_period R C hR hC)
 
 /-- **Blinker** (sizes `5..10 × 5..10`): period two and not one. -/
 theorem blinker_period_two : ∀ R ∈ List.range' 5 6, ∀ C ∈ List.range' 5 6,
@@ -279,15 +295,19 @@ theorem beehive_fixed : ∀ R ∈ List.range' 6 5, ∀ C ∈ List.range' 6 5,
     lifeStep R C (place R C beehive) = place R C beehive := by
   decide +kernel
 
+/-- Placed patterns and their translates are binary `R × C` grids. -/
 theorem place_binary (R C : Nat) (cells : List (Nat × Nat)) : Binary (place R C cells) :=
   Life.tabulate_binary R C _ fun i j => by split <;> simp
 
+/-- See `place_binary`. -/
 theorem place_rect (R C : Nat) (cells : List (Nat × Nat)) : Rect (place R C cells) R C :=
   Life.tabulate_rect R C _
 
+/-- See `place_binary`. -/
 theorem shift_binary (R C dx dy : Nat) (g : Grid Int) (hb : Binary g) : Binary (shift R C dx dy g) :=
   Life.tabulate_binary R C _ fun _ _ => Life.cell_binary' hb _ _
 
+/-- See `place_binary`. -/
 theorem shift_rect (R C dx dy : Nat) (g : Grid Int) : Rect (shift R C dx dy g) R C :=
   Life.tabulate_rect R C _
 
@@ -312,18 +332,18 @@ theorem block_evolve (R C : Nat) (hR : R ∈ List.range' 5 6) (hC : C ∈ List.r
     (shift_binary R C dx dy _ (place_binary R C block))
     (still_life_anywhere R C dx dy _ (block_fixed R hR C hC)) mode hm T hT
 
-/-- The glider through `evolve2d`: same sizes, any placement and mode; the grid at timestep `4` (the
-    fifth row of the returned array) is the initial grid moved by one cell down and right. -/
-theorem glider_evolve (R C : Nat) (hR : R ∈ List.range' 5 6) (hC : C ∈ List.range' 5 6) (dx dy : Nat)
+/-- **The glider through `evolve2d`** on every torus of at least 5 × 5 cells, any placement, any memoize
+    mode: the grid at timestep `4` (the fifth entry of the returned array) is the initial grid moved by
+    one cell down and right. -/
+theorem glider_evolve (R C : Nat) (hR : 5 ≤ R) (hC : 5 ≤ C) (dx dy : Nat)
     (mode : Mode) (hm : mode ≠ .bad) (T : Nat) (hT : 5 ≤ T) :
     (evolve2dFixed [shift R C dx dy (place R C glider)] T golRule2 1 .moore mode ()).map (·.1[4]?)
       = .ok (some (shift R C 1 1 (shift R C dx dy (place R C glider)))) := by
-  have hR1 : 1 ≤ R := by simp [List.mem_range'] at hR; omega
-  have hC1 : 1 ≤ C := by simp [List.mem_range'] at hC; omega
   rw [evolve2d_gol_eq_life 0 mode hm [shift R C dx dy (place R C glider)] (shift R C dx dy (place R C glider))
-    rfl T (by omega) R C (shift_rect R C dx dy _) (shift_binary R C dx dy _ (place_binary R C glider)) hR1 hC1]
+    rfl T (by omega) R C (shift_rect R C dx dy _) (shift_binary R C dx dy _ (place_binary R C glider))
+    (by omega) (by omega)]
   simp only [Except.map, List.cons_append, List.nil_append, List.getElem?_cons_succ]
-  rw [lifeRun_getElem? R C (T - 1) 3 _ (by omega), glider_anywhere_partial R C hR hC dx dy]
+  rw [lifeRun_getElem? R C (T - 1) 3 _ (by omega), glider_anywhere R C hR hC dx dy]
 
 /-! ## Non-vacuity -/
 
@@ -336,6 +356,11 @@ example : (match evolve2dFixed [place 6 5 glider] 5 golRule2 1 .moore .recursive
       | .ok (gs, _) => gs.getLast?
       | .error _ => none)
     = some (shift 6 5 1 1 (place 6 5 glider)) := by decide +kernel
+
+/-- A large, non-square torus. -/
+example : lifeIter 50 73 4 (shift 50 73 48 71 (place 50 73 glider))
+    = shift 50 73 1 1 (shift 50 73 48 71 (place 50 73 glider)) :=
+  glider_anywhere 50 73 (by decide) (by decide) 48 71
 
 /-- A translate that wraps around both boundaries. -/
 example : shift 5 5 4 4 (place 5 5 glider)
